@@ -26,6 +26,9 @@ type DockerSpec struct {
 	OuterGz bool   `json:"outer_gz,omitempty"` // whole archive gzip-compressed
 	Order   string `json:"order"`              // id | rev | mlast | perm:<k> | rot:<k>
 	Sel     string `json:"sel,omitempty"`      // "" | first (first RepoTag of image 0) | last (second RepoTag of the last image) | absent
+	// Damage "gz-body": eight bytes in the middle of the compressed stream of the last layer of every
+	// image are overwritten (LayerGz only): the layer cannot be decompressed to the end
+	Damage string `json:"damage,omitempty"`
 }
 
 func (d DockerSpec) String() string {
@@ -44,6 +47,9 @@ func (d DockerSpec) String() string {
 	}
 	if d.Sel != "" {
 		s += " sel=" + d.Sel
+	}
+	if d.Damage != "" {
+		s += " damage=" + d.Damage
 	}
 	return s
 }
@@ -148,6 +154,15 @@ func buildDocker(sp DockerSpec) (*dockerArchive, error) {
 			if sp.LayerGz {
 				stored = gzipBytes(u)
 				mt = graphs.MTDockerLayerGz
+				if sp.Damage == "gz-body" && i == len(img.Layers)-1 {
+					stored = append([]byte{}, stored...)
+					for k := len(stored) / 2; k < len(stored)/2+8 && k < len(stored)-8; k++ {
+						stored[k] = 0xff
+					}
+					if _, err := gunzip(stored); err == nil {
+						return nil, fmt.Errorf("harness: damaged layer still decompresses")
+					}
+				}
 			}
 			isDup := sp.Dup != "" && i == sp.Layers-1
 			id := sha256hex(u) // content-derived id: the shared base layer gets one path
